@@ -18,6 +18,7 @@
    changes the result nowhere under [subst_safe], and exactly on the witnesses' classes outside it. *)
 Require Import Coq.Strings.String.
 Require Import RIO.Base RIO.Pct RIO.Url RIO.Prefix RIO.RegexSem RIO.Marker RIO.MarkerProofs RIO.Rx RIO.C10Run.
+Require Import RIO.TablesTie RIOGen.ExtTables.
 Open Scope N_scope.
 
 (* ================================================================================================== *)
@@ -390,6 +391,28 @@ Lemma C10_header_name_case :
   /\ route_capture rxE rt (req_hdr (lit "x-id") (lit "id=12")) = [(lit "id", lit "12")].
 Proof. cbn zeta. split; vm_compute; reflexivity. Qed.
 
+
+(* ---- TIE TO THE SOURCE (translator): the transformer kinds and option keys that Transformer::to_transform dispatches on
+   (src/api/transformer.rs, lifted on every run) are the ones Marker.to_transform dispatches on; the marker regexes are
+   percent-encoded with the set the source uses now. *)
+Theorem C10_tables_transformer_kinds :
+  ext_transformer_kinds = model_transformer_kinds /\ ext_transformer_option_keys = model_transformer_option_keys.
+Proof. split; vm_compute; reflexivity. Qed.
+
+Theorem C10_tables_unknown_kind_is_dropped : forall t k, t_kind t = Some k -> mem_str k ext_transformer_kinds = false -> to_transform t = None.
+Proof.
+  intros t k Hk Hm. unfold to_transform. rewrite Hk.
+  assert (E : ext_transformer_kinds = model_transformer_kinds) by (vm_compute; reflexivity). rewrite E in Hm. clear E.
+  unfold model_transformer_kinds, mem_str in Hm. cbn [existsb] in Hm.
+  repeat match goal with |- context [str_eqb k (lit ?s)] => let v := eval vm_compute in (lit s) in change (lit s) with v end.
+  repeat (apply Bool.orb_false_elim in Hm; let E := fresh "E" in destruct Hm as [E Hm]; try rewrite E).
+  reflexivity.
+Qed.
+
+Theorem C10_tables_marker_regex_encoding : forall input : str,
+  utf8_percent_encode input (set_of_adds ext_rule_SIMPLE_ENCODE_SET_adds) = utf8_percent_encode input rule_SIMPLE_ENCODE_SET.
+Proof. intros. apply sets_agree_encode. vm_compute. reflexivity. Qed.
+
 Print Assumptions C10_substitute_onepass.
 Print Assumptions C10_onepass_picks_longest.
 Print Assumptions C10_onepass_order_irrelevant.
@@ -408,3 +431,6 @@ Print Assumptions C10_capture_partial.
 Print Assumptions C10_route_matches_iff_partial.
 Print Assumptions C10_clobber_witness.
 Print Assumptions C10_juxtaposition_witness.
+Print Assumptions C10_tables_transformer_kinds.
+Print Assumptions C10_tables_unknown_kind_is_dropped.
+Print Assumptions C10_tables_marker_regex_encoding.
